@@ -66,8 +66,13 @@ pub fn canon_opt(nodes: &[Node], obj: &Value, no_segments: bool) -> Result<Vec<C
         let cr = match &n.agg {
             Agg::Metric { kind, .. } => match kind {
                 MK::Percentiles => {
-                    let vals = v["values"].as_object().ok_or("percentiles without values")?;
-                    let mut l: Vec<(String, f64)> = vals.iter().map(|(k, x)| (k.clone(), x.as_f64().unwrap_or(f64::NAN))).collect();
+                    let mut l: Vec<(String, f64)> = if n.opt.keyed {
+                        let vals = v["values"].as_object().ok_or("keyed percentiles without a values object")?;
+                        vals.iter().map(|(k, x)| (k.clone(), x.as_f64().unwrap_or(f64::NAN))).collect()
+                    } else {
+                        let vals = v["values"].as_array().ok_or("percentiles (keyed = false) without a values array")?;
+                        vals.iter().map(|e| (e["key"].as_f64().unwrap_or(f64::NAN).to_string(), e["value"].as_f64().unwrap_or(f64::NAN))).collect()
+                    };
                     l.sort_by(|a, b| a.0.parse::<f64>().unwrap().partial_cmp(&b.0.parse::<f64>().unwrap()).unwrap());
                     CR::Pct(l)
                 }
@@ -104,7 +109,16 @@ pub fn canon_opt(nodes: &[Node], obj: &Value, no_segments: bool) -> Result<Vec<C
                 CR::Terms { buckets, other: v["sum_other_doc_count"].as_u64().ok_or("sum_other_doc_count")?, err: v["doc_count_error_upper_bound"].as_u64() }
             }
             Agg::Hist { field, interval, offset, .. } => {
-                let bs = v["buckets"].as_array().ok_or("histogram without buckets")?;
+                let owned: Vec<Value>;
+                let bs: &Vec<Value> = if n.opt.keyed {
+                    // keyed output: an object keyed by the bucket key; order = numeric key order
+                    let m = v["buckets"].as_object().ok_or("keyed histogram without a buckets object")?;
+                    for (k, b) in m { if b["key"].as_f64().map(|x| x.to_string()) != Some(k.clone()) { return Err(format!("keyed histogram: entry {k:?} holds key {}", b["key"])); } }
+                    let mut l: Vec<Value> = m.values().cloned().collect();
+                    l.sort_by(|a, b| a["key"].as_f64().unwrap_or(0.0).total_cmp(&b["key"].as_f64().unwrap_or(0.0)));
+                    owned = l;
+                    &owned
+                } else { v["buckets"].as_array().ok_or("histogram without buckets")? };
                 let mut buckets = vec![];
                 for b in bs {
                     let key = b["key"].as_f64().ok_or("histogram key")?;
@@ -120,7 +134,15 @@ pub fn canon_opt(nodes: &[Node], obj: &Value, no_segments: bool) -> Result<Vec<C
                 CR::List(buckets)
             }
             Agg::Range { field, ranges } => {
-                let bs = v["buckets"].as_array().ok_or("range without buckets")?;
+                let owned: Vec<Value>;
+                let bs: &Vec<Value> = if n.opt.keyed {
+                    let m = v["buckets"].as_object().ok_or("keyed range without a buckets object")?;
+                    for (k, b) in m { if b["key"].as_str() != Some(k.as_str()) { return Err(format!("keyed range: entry {k:?} holds key {}", b["key"])); } }
+                    let mut l: Vec<Value> = m.values().cloned().collect();
+                    l.sort_by(|a, b| a["from"].as_f64().unwrap_or(f64::MIN).total_cmp(&b["from"].as_f64().unwrap_or(f64::MIN)));
+                    owned = l;
+                    &owned
+                } else { v["buckets"].as_array().ok_or("range without buckets")? };
                 let cuts = range_cuts(*field, ranges);
                 let mut buckets = vec![];
                 for (i, b) in bs.iter().enumerate() {
@@ -280,7 +302,7 @@ fn cmp_one(n: &Node, real: &CR, exp: &SR, cx: &mut CmpCtx) -> Result<(), (String
         }
         (CR::List(r), SR::List(_, true)) => if r.is_empty() { Ok(()) } else { Err(here(format!("range that no segment instantiated has {} buckets", r.len()))) },
         (CR::List(r), SR::List(e, false)) => cmp_buckets(n, r, e, cx),
-        (CR::Terms { buckets, other, err }, SR::Terms { all, size, order, .. }) => {
+        (CR::Terms { buckets, other, err }, SR::Terms { all, size, order, subkey, .. }) => {
             let total: u64 = all.iter().map(|b| b.1).sum();
             if cx.may_truncate.contains(&n.name) {
                 // documented approximation: only the bounds are promised
@@ -290,7 +312,7 @@ fn cmp_one(n: &Node, real: &CR, exp: &SR, cx: &mut CmpCtx) -> Result<(), (String
                 for b in buckets {
                     let truth = all.iter().find(|x| x.0 == b.0).map(|x| x.1);
                     match truth {
-                        Some(t) if b.1 <= t && (*order != TOrd::CountDesc || t <= b.1 + e) => {}
+                        Some(t) if b.1 <= t && (*order != TOrd::CountDesc || subkey.is_some() || t <= b.1 + e) => {}
                         None if mdc > 1 => {}
                         _ => return Err(here(format!("terms with segment truncation: bucket {} has count {} but the true count is {truth:?} (doc_count_error_upper_bound {e})", b.0, b.1))),
                     }
@@ -304,8 +326,12 @@ fn cmp_one(n: &Node, real: &CR, exp: &SR, cx: &mut CmpCtx) -> Result<(), (String
             // ties of `_count` are unspecified: order each tie group of the expectation as the
             // real result did, then compare strictly
             let mut sorted = all.clone();
-            if matches!(order, TOrd::CountDesc | TOrd::CountAsc) {
-                let pos = |k: i64| buckets.iter().position(|b| b.0 == k).unwrap_or(usize::MAX);
+            let pos = |k: i64| buckets.iter().position(|b| b.0 == k).unwrap_or(usize::MAX);
+            if let Some((vals, asc)) = subkey {
+                let mut keyed: Vec<(f64, (i64, u64, Vec<SR>))> = vals.iter().cloned().zip(all.iter().cloned()).collect();
+                keyed.sort_by(|a, b| (if *asc { a.0.total_cmp(&b.0) } else { b.0.total_cmp(&a.0) }).then(pos(a.1 .0).cmp(&pos(b.1 .0))).then(a.1 .0.cmp(&b.1 .0)));
+                sorted = keyed.into_iter().map(|x| x.1).collect();
+            } else if matches!(order, TOrd::CountDesc | TOrd::CountAsc) {
                 sorted.sort_by(|a, b| {
                     let c = if *order == TOrd::CountDesc { b.1.cmp(&a.1) } else { a.1.cmp(&b.1) };
                     c.then(pos(a.0).cmp(&pos(b.0))).then(a.0.cmp(&b.0))
@@ -329,7 +355,9 @@ pub fn normalise_ties(nodes: &[Node], crs: &mut [CR]) {
             CR::Terms { buckets, .. } => {
                 let by_count = matches!(&n.agg, Agg::Terms { order, .. } if matches!(order, None | Some(TOrd::CountDesc) | Some(TOrd::CountAsc)));
                 let asc = matches!(&n.agg, Agg::Terms { order: Some(TOrd::CountAsc), .. });
-                if by_count {
+                if n.opt.sub_order.is_some() {
+                    buckets.sort_by(|a, b| a.0.cmp(&b.0));
+                } else if by_count {
                     buckets.sort_by(|a, b| (if asc { a.1.cmp(&b.1) } else { b.1.cmp(&a.1) }).then(a.0.cmp(&b.0)));
                 }
                 for b in buckets.iter_mut() { normalise_ties(&n.subs, &mut b.2); }
